@@ -46,7 +46,7 @@ pub fn gen_keyfile(rng: &mut Rng) -> (Vec<u8>, Vec<u8>, &'static str) {
         0 => { let k = rng.bytes(32); (k.clone(), k, "raw-32-bytes") }
         1 => {
             // any other file is hashed: short ones, and (1 in 4) files of several KiB around buffer sizes
-            let n = if rng.chance(1, 4) { *rng.pick(&[4095usize, 4096, 4097, 5000, 8192, 8193, 20_000]) } else { rng.below(200) as usize };
+            let n = if rng.chance(1, 4) { *rng.pick(&[4095usize, 4096, 4097, 5000, 8192, 8193, 20_000, 65_535, 65_536, 65_537, 100_000]) } else { rng.below(200) as usize };
             let n = if n == 32 { 33 } else { n };
             let d = rng.bytes(n); let k = oracle::sha256(&d); (d, k, "hashed-arbitrary-bytes") }
         2 => {
@@ -81,7 +81,10 @@ pub fn gen_keyfile(rng: &mut Rng) -> (Vec<u8>, Vec<u8>, &'static str) {
         }
         6 => {
             // XML without key data: falls through to the hash of the whole file
-            let x = format!("<KeyFile><Meta><Version>1.00</Version></Meta><Key></Key></KeyFile><!-- {} -->", rng.next()).into_bytes();
+            // (no Data element at all, or one that is empty, self-closing or holds white space only)
+            let hole = *rng.pick(&["", "<Data></Data>", "<Data/>", "<Data> \n\t</Data>", "<Data Hash=\"00000000\"></Data>"]);
+            let ver = *rng.pick(&["1.00", "2.0"]);
+            let x = format!("<KeyFile><Meta><Version>{}</Version></Meta><Key>{}</Key></KeyFile><!-- {} -->", ver, hole, rng.next()).into_bytes();
             let k = oracle::sha256(&x);
             (x, k, "xml-without-data")
         }
@@ -105,7 +108,10 @@ pub struct Base {
 }
 
 pub fn make_base(rng: &mut Rng, small: bool) -> Option<Base> {
-    let creds = gen_creds(rng);
+    make_base_with(rng, small, None)
+}
+pub fn make_base_with(rng: &mut Rng, small: bool, creds: Option<Creds>) -> Option<Base> {
+    let creds = match creds { Some(c) => c, None => gen_creds(rng) };
     let mut db = { let mut g = G::new(rng, Mode::Lossless, false); if small { let cfg = g.config(true); let mut d = Database::new(cfg); d.root = g.group(0); d } else { g.database(true) } };
     if small { db.root.children.truncate(2); }
     let draws: Vec<Vec<u8>> = draw_sizes(&db.config).into_iter().map(|n| rng.bytes(n)).collect();
@@ -561,7 +567,21 @@ fn c05(args: &Args, agg: &mut Aggregate) {
         let mut accepted_same = 0;
         for m in 0..n_mut {
             let mut f = file.clone();
-            let kind = match rng.below(14) {
+            let kind = match rng.below(15) {
+                14 => { // the whole file rebuilt WITHOUT the key: every key derived from public header bytes only
+                    // (the secret part empty, zero, or a hash of the header), for master seeds of usual and unusual
+                    // lengths, optionally with a changed payload; tags and ciphertext are consistent under those keys
+                    let mut p2 = parts.clone();
+                    let n = *rng.pick(&[0usize, 16, 32, 33, 64, 65, 96]);
+                    p2.master_seed = rng.bytes(n);
+                    if let Some(fl) = p2.fields.iter_mut().find(|f| f.0 == 4) { fl.1 = p2.master_seed.clone(); }
+                    p2.transformed = match rng.below(4) { 0 => Vec::new(), 1 => vec![0u8; 32], 2 => oracle::sha256(&p2.master_seed), _ => p2.master_seed.iter().cloned().take(32).collect() };
+                    if rng.chance(1, 2) && !p2.payload.is_empty() { let i = rng.below(p2.payload.len() as u64) as usize; p2.payload[i] ^= 1; }
+                    p2.partition = vec![];
+                    let enc_len = p2.encrypted().len();
+                    p2.partition = vec![enc_len];
+                    f = p2.build();
+                    "rebuilt-without-the-key" }
                 12 | 13 => { // three steps: the file cut inside (or right after) the last data block, that block's
                     // length word raised beyond what is left, and (mostly) a ciphertext byte altered
                     let last_data = blocks.len().saturating_sub(2);
@@ -665,7 +685,7 @@ fn c05(args: &Args, agg: &mut Aggregate) {
         o.nontrivial = true;
         o
     });
-    write_report(args, agg, "small saved databases re-framed into 1..4 (a quarter of the cases 5..24) HMAC blocks x 60 (quick) / 400 (thorough) alterations made without the key: single-byte substitutions anywhere (header, hash, HMAC, block HMACs, lengths, ciphertext), truncation at any offset and at block boundaries with and without the terminator, block swap/duplication/removal, header edits with the SHA-256 recomputed, appended tails, multi-byte ciphertext edits, swapped/zeroed check values, and multi-step alterations (closing block removed + last data block edited; edit + appended tail; file cut inside or after the last data block + that block's length word raised beyond the remaining bytes + a ciphertext bit flipped); plus 2 (quick) / 8 (thorough) tag sweeps per case (an authenticated byte altered, then one byte of the matching HMAC run through all 256 values); every mutant is opened with the right key (must fail or equal the original) and its inner XML extracted with get_xml (must fail or return the original document), every sixth is also decoded by the model and compared; each case is non-trivial; distinct = distinct file shape", serde_json::json!({"mutants_per_case": if exhaustive { 400 } else { 60 }}));
+    write_report(args, agg, "small saved databases re-framed into 1..4 (a quarter of the cases 5..24) HMAC blocks x 60 (quick) / 400 (thorough) alterations made without the key: single-byte substitutions anywhere (header, hash, HMAC, block HMACs, lengths, ciphertext), truncation at any offset and at block boundaries with and without the terminator, block swap/duplication/removal, header edits with the SHA-256 recomputed, appended tails, multi-byte ciphertext edits, swapped/zeroed check values, and multi-step alterations (closing block removed + last data block edited; edit + appended tail; file cut inside or after the last data block + that block's length word raised beyond the remaining bytes + a ciphertext bit flipped), and whole files rebuilt without the key (all keys derived from public header bytes only, master seeds of 0..96 bytes); plus 2 (quick) / 8 (thorough) tag sweeps per case (an authenticated byte altered, then one byte of the matching HMAC run through all 256 values); every mutant is opened with the right key (must fail or equal the original) and its inner XML extracted with get_xml (must fail or return the original document), every sixth is also decoded by the model and compared; each case is non-trivial; distinct = distinct file shape", serde_json::json!({"mutants_per_case": if exhaustive { 400 } else { 60 }}));
 }
 
 // ---------------- C06: malformed input never panics ----------------
